@@ -459,6 +459,8 @@ class K8SExecutor(Executor):
         self.use_default_k8s_labels = config.getboolean("default_k8s_labels", True)
 
         self.is_running = False
+        # Guards the decision of whether a monitor thread is watching for new jobs.
+        self._lock = threading.RLock()
         self._k8s_client = k8s_utils.K8SClient()
         # We use an OrderedDict in order to retain submission order.
         self.pending_k8s_jobs: dict[str, Job | dict[int, Job]] = OrderedDict()
@@ -602,26 +604,28 @@ class K8SExecutor(Executor):
         """
         Start monitoring thread.
         """
-        if self.is_running:
-            return
+        with self._lock:
+            if self.is_running:
+                return
 
-        self.is_running = True
+            self.is_running = True
 
-        # Ensure k8s namespace exists.
-        if self.create_namespace:
-            k8s_utils.create_namespace(self._k8s_client, self.namespace)
+            # Ensure k8s namespace exists.
+            if self.create_namespace:
+                k8s_utils.create_namespace(self._k8s_client, self.namespace)
 
-        self._setup_secrets()
+            self._setup_secrets()
 
-        self._thread = threading.Thread(target=self._monitor, daemon=False)
-        self._thread.start()
+            self._thread = threading.Thread(target=self._monitor, daemon=False)
+            self._thread.start()
 
     def stop(self) -> None:
         """
         Stop Executor and monitoring thread.
         """
-        self.arrayer.stop()
-        self.is_running = False
+        with self._lock:
+            self.arrayer.stop()
+            self.is_running = False
 
     def _monitor(self) -> None:
         """
@@ -629,37 +633,50 @@ class K8SExecutor(Executor):
         """
         assert self._scheduler
 
-        try:
-            while self.is_running and (self.pending_k8s_jobs or self.arrayer.num_pending):
-                self.log(
-                    f"Preparing {self.arrayer.num_pending} job(s) for Job Arrays.",
-                    level=logging.DEBUG,
-                )
-                self.log(
-                    f"Waiting on {len(self.pending_k8s_jobs)} K8S job(s): "
-                    + " ".join(sorted(self.pending_k8s_jobs.keys())),
-                    level=logging.DEBUG,
-                )
+        while True:
+            failed = False
+            try:
+                while self.is_running and (self.pending_k8s_jobs or self.arrayer.num_pending):
+                    self.log(
+                        f"Preparing {self.arrayer.num_pending} job(s) for Job Arrays.",
+                        level=logging.DEBUG,
+                    )
+                    self.log(
+                        f"Waiting on {len(self.pending_k8s_jobs)} K8S job(s): "
+                        + " ".join(sorted(self.pending_k8s_jobs.keys())),
+                        level=logging.DEBUG,
+                    )
 
-                # Copy pending_k8s_jobs.keys() since it can change due to new
-                # submissions.
-                pending_jobs = list(self.pending_k8s_jobs.keys())
-                jobs = k8s_describe_jobs(self._k8s_client, pending_jobs, self.namespace)
-                # changing this (IE, removing iter_k8s_job_status) breaks
-                # inflight test jobs =
-                for job in jobs:
-                    self._process_k8s_job_status(job)
-                time.sleep(self.interval)
+                    # Copy pending_k8s_jobs.keys() since it can change due to new
+                    # submissions.
+                    pending_jobs = list(self.pending_k8s_jobs.keys())
+                    jobs = k8s_describe_jobs(self._k8s_client, pending_jobs, self.namespace)
+                    # changing this (IE, removing iter_k8s_job_status) breaks
+                    # inflight test jobs =
+                    for job in jobs:
+                        self._process_k8s_job_status(job)
+                    time.sleep(self.interval)
 
-        except Exception as error:
-            # Since we run this is method at the top-level of a thread, we need
-            # to catch all exceptions so we can properly report them to the
-            # scheduler.
-            self.log("_monitor got exception", level=logging.INFO)
-            self._scheduler.reject_job(None, error)
+            except Exception as error:
+                # Since we run this is method at the top-level of a thread, we need
+                # to catch all exceptions so we can properly report them to the
+                # scheduler.
+                failed = True
+                self.log("_monitor got exception", level=logging.INFO)
+                self._scheduler.reject_job(None, error)
 
-        self.log("Shutting down executor...", level=logging.DEBUG)
-        self.stop()
+            self.log("Shutting down executor...", level=logging.DEBUG)
+            with self._lock:
+                # A job submitted since the loop above found nothing left to monitor did not
+                # start a new monitor thread, because is_running was still set. Keep
+                # monitoring for it instead of exiting.
+                idle = self.is_running and not failed
+                self.stop()
+                if idle and (self.pending_k8s_jobs or self.arrayer.num_pending):
+                    self.is_running = True
+                    self.arrayer.start()
+                    continue
+            break
 
     def _get_k8s_job_terminal_status(self, job: V1Job) -> tuple[Optional[str], Optional[str]]:
         """
